@@ -146,3 +146,26 @@ prop("C08", level="exploration",
      min_nontrivial=dict(quick=5000, thorough=100000),
      min_counters=dict(selectors_with_offending_recursion=dict(quick=2000, thorough=40000), offending_recursions_under_interpret_as=dict(quick=300, thorough=5000)),
      assumptions=["go-ipld-prime's ParseSelector defines well-formedness"])
+
+
+# ---------------------------------------------------------------- full-stack data-plane properties
+_fs_assume = ["go-ipld-prime's selector traversal defines 'a local selector traversal' (shared with the implementation by design)",
+              "the in-memory fabric delivers per-link FIFO like a libp2p stream; every message crosses the real v2 encoder/decoder",
+              "quiescence = fabric idle, tag-guarded busy counters zero, mailbox barrier answered, logical clock stable over 5 probes"]
+
+prop("C02", level="exploration",
+     stages=[
+         dict(pkg="fullstack", test="TestC02Pinned", sub="pinned", race=True, cases=dict(quick=6, thorough=6), batch=1, timeout=1200),
+         dict(pkg="fullstack", test="TestC02", sub="random", race=True, vary_gomaxprocs=True,
+              cases=dict(quick=600, thorough=10000), timeout=3600),
+     ],
+     technique="runtime monitoring: differential oracle - real requestor and responder instances on an instrumented fabric/store versus a two-store reference traversal (go-ipld-prime only); exact comparison of delivered nodes, missing-block errors and stored blocks; Go race detector",
+     level_text=("Generated DAG x selector x store-split cases are executed end to end by two unmodified GraphSync instances (messages cross the "
+                 "real wire codec) with link jitter and schedule perturbation; delivered (path, last block, node digest) sequences, the multiset of "
+                 "missing-block errors and the final requestor store are compared exactly with a reference model written from the statement."),
+     level_note="Three genuine defect classes are recorded as known findings (known_findings.json) and recognised by predicates over the case and the reference model, never by error text.",
+     rule=("One evaluation = one generated case run end to end. DAGs: 3-40 (thorough up to 300) blocks, nested maps/lists, inline nodes with links, "
+           "shared sub-DAGs, duplicate links, raw + dag-cbor, zero-length raw blocks; selectors from 13 kinds; 8 x 8 store split classes. Non-trivial = "
+           "the reference outcome needs the network (at least one block obtained remotely or one link missing); distinct by (root, selector, both stores)."),
+     min_nontrivial=dict(quick=200, thorough=3000),
+     assumptions=_fs_assume)
